@@ -34,8 +34,10 @@ partial def cmdOf (s : S) : Cmd :=
     else if k.sym == "div" then .div (a.items.map cmdOf) (lenOf b)
     else if k.sym == "keyflag" then .keyFlag (a.intD 0) (b.items.map (fun x => (x.intD 0).toNat))
     else .rest none 0
+  | [k] => if k.sym == "tsync" then .trackSync else .rest none 0
   | [k, a] =>
     match k.sym with
+    | "play" => .play (a.items.map (fun p => p.items.map cmdOf))
     | "l" => .setL (lenOf a) | "o" => .setO (a.intD 0) | "orel" => .octRel (a.intD 0) | "v" => .setV (a.intD 0)
     | "vrel" => .velRel (a.intD 0) | "q" => .setQ (a.intD 0) | "t" => .setT (a.intD 0)
     | "sub" => .sub (a.items.map cmdOf) | "tr" => .track (a.intD 0).toNat | "ch" => .channel (a.intD 0)
